@@ -28,3 +28,12 @@ from nv.normalize import call_keywords  # noqa: E402
 t["<calls>"] = {"keywords": call_keywords({p.stem: ast.parse(p.read_text()) for p in sorted(src.glob("*.py"))})}
 REF_FILE.write_text(json.dumps(t, indent=0, sort_keys=True) + "\n")
 print(f"{len(t)} entries, {sum(len(e.get('locals', [])) for e in t.values() if isinstance(e, dict))} locals -> {REF_FILE}")
+
+# effect fingerprints of the reference tree (nv/fingerprint.py), computed on the model the rules see
+import os  # noqa: E402
+os.environ["NV_NO_FINGERPRINT"] = "1"
+from nv.model import load_model  # noqa: E402
+from nv.fingerprint import reference_fingerprints  # noqa: E402
+fp = reference_fingerprints(load_model(repo))
+(REF_FILE.parent / "reffp.json").write_text(json.dumps(fp, indent=0, sort_keys=True) + "\n")
+print(f"{len(fp['functions'])} function fingerprints, {len(fp['modules'])} module-level digests -> {REF_FILE.parent / 'reffp.json'}")
